@@ -4,7 +4,7 @@ import re
 import common
 from common import cq_bytes, cq_list
 
-THEOREMS = ["c05_history_independent", "c05_repeat_same", "c05_ku_eku_table_order", "c05_ku_eku_order", "c05_ku_eku_two"]
+THEOREMS = ["c05_history_independent", "c05_repeat_same", "c05_ku_eku_table_order", "c05_ku_eku_order", "c05_ku_eku_two", "c05_crl_subscriber_limit", "c05_crl_ca_limit", "c05_civil_date"]
 
 # allow-lists that are part of the design (DESIGN.md 5/C05)
 ALLOW_CALLS = [("w_sub_cert_aia_contains_internal_names", "time.Now"), ("w_smime_aia_contains_internal_names", "time.Now")]
